@@ -128,9 +128,11 @@ func main() {
 	}
 	facts := Facts{Consts: map[string]string{}, Funcs: map[string]FuncFact{}}
 	var dialLean string
+	var pollLean string
 	for _, p := range pkgs {
 		if p.Name == "netpoll" {
 			dialLean = dialFacts(p)
+			pollLean = pollFacts(p)
 		}
 		if len(p.Errors) > 0 {
 			for _, e := range p.Errors {
@@ -251,6 +253,10 @@ func main() {
 			os.Exit(2)
 		}
 		if err := os.WriteFile(filepath.Join(*out, "Dial.lean"), []byte(dialLean), 0o644); err != nil {
+			fmt.Fprintln(os.Stderr, err)
+			os.Exit(2)
+		}
+		if err := os.WriteFile(filepath.Join(*out, "Poll.lean"), []byte(pollLean), 0o644); err != nil {
 			fmt.Fprintln(os.Stderr, err)
 			os.Exit(2)
 		}
